@@ -474,6 +474,12 @@ func run(c *runner.Ctx) {
 			tryVal(string([]byte{byte(a), byte(b)}))
 		}
 	}
+	// long values (the json rule abbreviates inputs over 256 bytes in its clause; buffers sized from the input length)
+	for _, unit := range []string{"a", "\x1a'", "中", "\xff", "\"", "1", "1,", " ", "\\", "{\"a\":"} {
+		for _, n := range []int{100, 255, 256, 257, 258, 300, 513, 4096, 70000} {
+			tryVal(strings.Repeat(unit, n/len(unit)+1)[:n])
+		}
+	}
 	for _, seed := range []string{`{"a":[1,"x\n"]}`, "it's a \\ \"q\"\t\r\n\x00", "2021-09-28 10:00:00", "1,2,3", "a@b.cn", "1.2.3.4", "::1"} {
 		b := []byte(seed)
 		for i := 0; i <= len(b); i++ {
